@@ -55,6 +55,11 @@ def run(ctx):
             "correspondence harness harness/cmd/hC10 (real ConvertGrpcStatus, BaseGun.Shoot with scripted client, Sample.SetErr, ProviderBase.NextID; "
             "guns.go: real NewHTTP1Gun / NewConnectGun / http_scenario gun / grpc gun / grpc scenario gun against the in-process raw-TCP target+CONNECT proxy "
             "and gRPC target of harness/internal/a18, every status 200-599, refused / reset / stalled / truncated / reset-mid-body exchanges)",
+            "every gun-level observation is taken INSIDE Aggregator.Report (the value of the sample at the hand-over: tags, proto code, net code, id) and compared with the "
+            "sample after the shot returned (late=<samples written to after Report>); the code-shaped side is the trace of sample operations of Model/ShootEvents.v",
+            "ammo cases: generated uri / uripost / raw / http-json files (multi-word tags, header lines choosing the answered status, layouts) -> real components/providers/http NewProvider "
+            "-> Acquire -> real NewHTTP1Gun -> in-process target -> Release, k = passes*n+1 acquisitions; code-shaped side = the C07 decoder models composed with base_shoot (shoot_deliveries), "
+            "verdict = ammo_spec over the entries the tokens mean; net/url is replaced by an identity oracle on the simple URIs the generator writes, encoding/json by the entity tokens",
             "cfggun / gjson cases: components imported into the default registry, a minimal YAML section decoded by the real config decoder and plugin hooks into a gun factory / provider "
             "(http, http2 against an in-process TLS h2 target, connect, http/scenario, http2/scenario, grpc, grpc/scenario; grpc/json provider over long heterogeneous files with Release); "
             "expected auto-tag settings = the documented defaults overlaid by the section",
